@@ -371,6 +371,8 @@ type CRLOpts struct {
 	Files      []string
 	NoSettle   bool
 	Watchdog   time.Duration // for Provision (default DefaultWatchdog)
+	// OmitDefaults: options whose value is the documented default are rendered as if they had been omitted
+	OmitDefaults bool
 }
 
 // Config renders the options as the parsed config struct.
@@ -411,6 +413,19 @@ func (o CRLOpts) Config() *config.CRLConfig {
 	}
 	if o.Background {
 		cfg.CDPConfig.CRLFetchModeParsed = config.CRLFetchModeBackground
+	}
+	if o.OmitDefaults {
+		// as if the options whose value is the documented default had been left out of the configuration: the parser
+		// leaves their raw strings empty and fills in the parsed values only
+		if o.Disk {
+			cfg.StorageType = ""
+		}
+		if !o.Background {
+			cfg.CDPConfig.CRLFetchMode = ""
+		}
+		if o.Sig == "verify" {
+			cfg.SignatureValidationMode = ""
+		}
 	}
 	return cfg
 }
